@@ -297,6 +297,18 @@ func (w *world) burst(i int) {
 	if m < 0 {
 		m = 0
 	}
+	if w.longBursts {
+		// hundreds or tens of thousands of attempts against one sent code: an attempt counter
+		// kept in a narrow integer wraps around and lets the right code through again
+		switch x := w.r.Intn(600); {
+		case x == 0:
+			m = 65534 + w.r.Intn(4)
+			w.k.Count("attempt_bursts_over_65535", 1)
+		case x < 24:
+			m = pick(w.r, 253, 254, 255, 256, 257, 300, 511, 512)
+			w.k.Count("attempt_bursts_over_250", 1)
+		}
+	}
 	for x := 0; x < m; x++ {
 		w.verifyWrong(i)
 	}
@@ -357,6 +369,7 @@ func attemptsCase(k *engine.Case) {
 		cf.maxCount = 1 + r.Intn(3)
 	}
 	w := newWorld(k, cf, genPairs(r, cf.codeLen, 1+r.Intn(2), false))
+	w.longBursts = true
 	rounds := 1 + r.Intn(4)
 	for x := 0; x < rounds && !w.dead; x++ {
 		i := 0
